@@ -5,22 +5,40 @@
 (* real mystic.termination closures (spec -> code).                        *)
 (*                                                                         *)
 (* State: the energy history `hist` (grows by one entry per solver         *)
-(* iteration) and the interrupt flag.  gens/fcalls are functions of the    *)
-(* history length as in a DE run with NP evaluations per generation.       *)
-(* Every reachable state is emitted once (INVARIANT Emit) together with    *)
-(* the indices of the catalogue conditions that hold in it.                *)
+(* iteration), the interrupt flag, and the UNIT of energy `scale`:         *)
+(* the history entry e stands for the energy e * 2^scale, and so does      *)
+(* every setting of a condition that has the dimension of an energy        *)
+(* (field `dim` of the catalogue: VTR tolerance/target, COG tolerance,     *)
+(* NCT fval, VTRCOG ftol/gtol/target; the tolerances of NCOG and NCT are   *)
+(* relative, windows and limits are counts).  The documented inequalities  *)
+(* are homogeneous in the energies, so Sat(c) does not mention the unit:   *)
+(* this is checked (invariant Homogeneous: doubling every energy and every *)
+(* setting of that dimension changes no verdict), and it is what lets a    *)
+(* small-integer model speak about energies of 1e-300, 1e-9, 1e10, 1e300.  *)
+(* gens/fcalls are functions of the history length as in a DE run with NP  *)
+(* evaluations per generation.                                             *)
+(* Every reachable state whose length is in EmitLens is emitted once       *)
+(* (INVARIANT Emit) together with the indices of the catalogue conditions  *)
+(* that hold in it, and of those the specification leaves open (Open).     *)
 (***************************************************************************)
 EXTENDS Termination, TLC, Json, SequencesExt
 
-CONSTANTS Energies,     \* finite energies a step may record
+CONSTANTS Energies,     \* finite energies a step may record (integers, negative ones too)
           MaxLen,       \* longest history explored
           Tols,         \* tolerances <<n,d>>
+          FTols,        \* ftol of VTRChangeOverGeneration (its gtol ranges over Tols)
           Windows,      \* generation windows (None = -1)
           Targets,      \* finite targets / fvals
-          Limits        \* limits for EvaluationLimits (None = -1)
+          Limits,       \* limits for EvaluationLimits (None = -1)
+          Scales,       \* units of energy: exponents s, the unit is 2^s
+          Exits,        \* values of the interrupt flag explored
+          MaxChanges,   \* a history has at most this many places where the energy changes (long plateaus)
+          EmitLens,     \* history lengths that are emitted
+          Extra         \* further catalogue entries (conditions created with NO argument: the documented
+                        \* defaults, written in the unit of the model; flagged dflt)
 
-VARIABLES hist, exitreq
-vars == <<hist, exitreq>>
+VARIABLES hist, exitreq, scale
+vars == <<hist, exitreq, scale>>
 
 NP == 4
 Gens   == IF Len(hist) = 0 THEN 0 ELSE Len(hist) - 1
@@ -29,33 +47,52 @@ FCalls == NP * Len(hist)
 Vals == Energies \cup {INF}
 
 (* uniform-shape records so that the catalogue is one set *)
-C(k, tol, tol2, g, t) == [k |-> k, tol |-> tol, tol2 |-> tol2, g |-> g, t |-> t]
+C(k, tol, tol2, g, t) == [k |-> k, tol |-> tol, tol2 |-> tol2, g |-> g, t |-> t, dflt |-> FALSE]
+D(k, tol, tol2, g, t) == [k |-> k, tol |-> tol, tol2 |-> tol2, g |-> g, t |-> t, dflt |-> TRUE]
 Z == <<0, 1>>
 Conds ==
        {C("VTR", tol, Z, None, t) : tol \in Tols, t \in Targets}
   \cup {C("COG", tol, Z, g, 0) : tol \in Tols, g \in Windows}
   \cup {C("NCOG", tol, Z, g, 0) : tol \in Tols, g \in Windows}
   \cup {C("NCT", tol, Z, g, t) : tol \in Tols, g \in Windows, t \in Targets \cup {None}}
-  \cup {C("VTRCOG", ftol, gtol, g, t) : ftol \in Tols, gtol \in Tols, g \in Windows, t \in Targets}
+  \cup {C("VTRCOG", ftol, gtol, g, t) : ftol \in FTols, gtol \in Tols, g \in Windows, t \in Targets}
   \cup {C("EL", Z, Z, g, e) : g \in Limits, e \in Limits}
   \cup {C("SI", Z, Z, None, 0)}
+  \cup Extra
 
 CondSeq == SetToSeq(Conds)
 
-Sat(c) ==
-  CASE c.k = "VTR"    -> VTR(hist, c.tol, c.t)
-    [] c.k = "COG"    -> ChangeOverGeneration(hist, c.tol, c.g)
-    [] c.k = "NCOG"   -> NormalizedChangeOverGeneration(hist, c.tol, c.g)
-    [] c.k = "NCT"    -> NormalizedCostTarget(hist, c.t, c.tol, c.g)
-    [] c.k = "VTRCOG" -> VTRChangeOverGeneration(hist, c.tol, c.tol2, c.g, c.t)
+(* which settings of a condition are energies (scale with the unit) *)
+Dim(k) == CASE k = "VTR"    -> {"tol", "t"}
+            [] k = "COG"    -> {"tol"}
+            [] k = "NCT"    -> {"t"}
+            [] k = "VTRCOG" -> {"tol", "tol2", "t"}
+            [] OTHER        -> {}
+
+SatOn(c, h) ==
+  CASE c.k = "VTR"    -> VTR(h, c.tol, c.t)
+    [] c.k = "COG"    -> ChangeOverGeneration(h, c.tol, c.g)
+    [] c.k = "NCOG"   -> NormalizedChangeOverGeneration(h, c.tol, c.g)
+    [] c.k = "NCT"    -> NormalizedCostTarget(h, c.t, c.tol, c.g)
+    [] c.k = "VTRCOG" -> VTRChangeOverGeneration(h, c.tol, c.tol2, c.g, c.t)
     [] c.k = "EL"     -> EvaluationLimits(Gens, FCalls, c.g, c.t)
     [] c.k = "SI"     -> SolverInterrupt(exitreq)
+Sat(c) == SatOn(c, hist)
 
-Init == hist = << >> /\ exitreq \in BOOLEAN
+(* NormalizedChangeOverGeneration is implemented with a regularisation eta = 1e-20 added to the right-hand  *)
+(* side; the documented quotient has none.  For energies of the size of eta or below the two differ, and   *)
+(* the specification leaves the verdict open there (unit below 2^-40; the histories are small multiples    *)
+(* of the unit).                                                                                           *)
+Open(c) == c.k = "NCOG" /\ scale < -40
+
+Init == hist = << >> /\ exitreq \in Exits /\ scale \in Scales
+
+Changes(h) == Cardinality({i \in 1..(Len(h) - 1) : h[i] # h[i + 1]})
 
 Step(e) == /\ Len(hist) < MaxLen
+           /\ Changes(Append(hist, e)) <= MaxChanges
            /\ hist' = Append(hist, e)
-           /\ UNCHANGED exitreq
+           /\ UNCHANGED <<exitreq, scale>>
 
 Next == \E e \in Vals : Step(e)
 
@@ -74,19 +111,32 @@ VTRCOGisOr ==
      (Sat(c) <=> (ChangeOverGeneration(hist, c.tol2, c.g) \/ VTR(hist, c.tol, c.t)))
 
 (* monotone in the tolerance: a larger tolerance never un-satisfies VTR / COG *)
+AbsTolConds == {c \in Conds : c.k \in {"VTR", "COG"}}
 TolMonotone ==
-  \A c1, c2 \in Conds :
-     (/\ c1.k = c2.k /\ c1.k \in {"VTR", "COG"} /\ c1.g = c2.g /\ c1.t = c2.t
+  \A c1, c2 \in AbsTolConds :
+     (/\ c1.k = c2.k /\ c1.g = c2.g /\ c1.t = c2.t
       /\ c1.tol[1] * c2.tol[2] <= c2.tol[1] * c1.tol[2] /\ Sat(c1)) => Sat(c2)
 
 (* nothing is satisfied on the empty history except the counters-only conditions *)
 EmptyHistory ==
   hist = << >> => \A c \in Conds : Sat(c) => c.k \in {"EL", "SI"}
 
+(* the unit of energy does not matter: twice the energies, twice the settings that are energies *)
+Twice(x) == IF x = INF THEN x ELSE 2 * x
+TwiceTol(t) == <<2 * t[1], t[2]>>
+TwiceCond(c) == [c EXCEPT !.tol  = IF "tol" \in Dim(c.k) THEN TwiceTol(@) ELSE @,
+                          !.tol2 = IF "tol2" \in Dim(c.k) THEN TwiceTol(@) ELSE @,
+                          !.t    = IF "t" \in Dim(c.k) /\ ~(c.k = "NCT" /\ @ = None) THEN 2 * @ ELSE @]
+Homogeneous ==
+  \A c \in Conds : Sat(c) <=> SatOn(TwiceCond(c), [i \in 1..Len(hist) |-> Twice(hist[i])])
+
 -----------------------------------------------------------------------------
 (* emission: the catalogue once, then one line per reachable state *)
-ASSUME PrintT(<<"@@", ToJson([catalogue |-> CondSeq])>>)
+ASSUME PrintT(<<"@@", ToJson([catalogue |-> CondSeq,
+                              dims |-> [i \in 1..Len(CondSeq) |-> Dim(CondSeq[i].k)]])>>)
 
-Emit == PrintT(<<"@@", ToJson([hist |-> hist, exit |-> exitreq, gens |-> Gens, fcalls |-> FCalls,
-                               sat |-> {i \in 1..Len(CondSeq) : Sat(CondSeq[i])}])>>)
+Emit == Len(hist) \in EmitLens =>
+        PrintT(<<"@@", ToJson([hist |-> hist, exit |-> exitreq, gens |-> Gens, fcalls |-> FCalls, scale |-> scale,
+                               sat |-> {i \in 1..Len(CondSeq) : Sat(CondSeq[i])},
+                               open |-> {i \in 1..Len(CondSeq) : Open(CondSeq[i])}])>>)
 =============================================================================
